@@ -40,7 +40,7 @@ ASSUMPTIONS = list(c19.ASSUMPTIONS) + [
     "a scalar read may come back as a 0-d DimArray on disk and as a NumPy scalar in memory: compared by value",
     "DimArray blocks assigned on disk carry all of the variable's dimensions (documented usage)",
 ]
-MANDATORY = ["read:label", "read:position", "read:tol", "read:dataset", "read:absent->IndexError", "read:str-axis", "read:0d", "read:mask", "read:slice",
+MANDATORY = ["read:variable-not-on-the-file's-first-dimension", "read:label", "read:position", "read:tol", "read:dataset", "read:absent->IndexError", "read:str-axis", "read:0d", "read:mask", "read:slice",
              "write:label", "write:position", "write:ndarray", "write:dimarray", "write:reopen", "unlimited:append-scalar", "unlimited:append-slice",
              "unlimited:append-list", "unlimited:second-variable", "multi:stack", "multi:concatenate", "multi:align", "multi:keys"]
 
@@ -363,10 +363,19 @@ def run_read(case, tmp):
         mem = lambda: A.take(lt)
         spellings = [("h[name][t]", lambda: v[lt]), ("h[name].loc[t]", lambda: v.loc[lt]), ("h[name].sel(**)", lambda: v.sel(**ldict)), ("h[name].read(t)", lambda: v.read(lt)),
                      ("h[name].read(indices=dict)", lambda: v.read(indices=dict(ldict))), ("read_nc(f, name, indices=dict)", lambda: da.read_nc(path, name, indices=dict(ldict))),
-                     ("h.read(name, indices=dict)", lambda: h.read(name, indices=dict(ldict)))]
+                     ("h.read(name, indices=dict)", lambda: h.read(name, indices=dict(ldict))),
+                     # index tuples (not mappings) refer to the VARIABLE's own dimensions, whatever the file's dimension order is
+                     ("read_nc(f, name, indices=tuple)", lambda: da.read_nc(path, name, indices=lt)), ("h.read(name, indices=tuple)", lambda: h.read(name, indices=lt))]
         if len(nonfull_l) == 1:
             i = nonfull_l[0]
             spellings.append(("h[name].read(i, axis=name)", lambda: v.read(lt[i], axis=dims[i])))
+            spellings.append(("read_nc(f, name, indices=i, axis=name)", lambda: da.read_nc(path, name, indices=lt[i], axis=dims[i])))
+            spellings.append(("read_nc(f, name, indices=i, axis=position in the variable)", lambda: da.read_nc(path, name, indices=lt[i], axis=i)))
+            spellings.append(("h.read(name, indices=i, axis=position in the variable)", lambda: h.read(name, indices=lt[i], axis=i)))
+            if i == 0:
+                spellings.append(("read_nc(f, name, indices=i)", lambda: da.read_nc(path, name, indices=lt[0])))
+        if nd and list(loaded.dims)[0] != dims[0]:
+            cl.add("read:variable-not-on-the-file's-first-dimension")
         for sname, f in spellings:
             r = differential(f, mem, base + "%s lidx=%s" % (sname, core.jsonable(lidx)), sig)
             if r.startswith("raised:IndexError"):
@@ -379,7 +388,9 @@ def run_read(case, tmp):
         memp = lambda: A.take(pt, indexing="position")
         for sname, f in [("h[name].ix[t]", lambda: v.ix[pt]), ("h[name].iloc[t]", lambda: v.iloc[pt]), ("h[name].isel(**)", lambda: v.isel(**pdict)),
                          ("h[name].read(t, indexing=position)", lambda: v.read(pt, indexing="position")),
-                         ("read_nc(f, name, indices=, indexing=position)", lambda: da.read_nc(path, name, indices=dict(pdict), indexing="position"))]:
+                         ("read_nc(f, name, indices=, indexing=position)", lambda: da.read_nc(path, name, indices=dict(pdict), indexing="position")),
+                         ("read_nc(f, name, indices=tuple, indexing=position)", lambda: da.read_nc(path, name, indices=pt, indexing="position")),
+                         ("h.read(name, indices=tuple, indexing=position)", lambda: h.read(name, indices=pt, indexing="position"))]:
             differential(f, memp, base + "%s pidx=%s" % (sname, core.jsonable(pidx)), sig)
         cl.add("read:position")
         # ---- tolerance
